@@ -330,6 +330,14 @@ func runC17Expand(payload string) string {
 		res = append(res, "body -")
 	}
 
+	// 5 (printed last). phrase/3 itself when the body is (still) a variable
+	phr := "phr -"
+	if c, ok := t.(engine.Compound); ok && c.Functor().String() == "-->" && c.Arity() == 2 {
+		if v, ok := c.Arg(1).(engine.Variable); ok {
+			phr = "phr " + solveOnce(&i.VM, compound("phrase", v, engine.NewVariable(), engine.NewVariable()))
+		}
+	}
+
 	// 4. what the compiler's iterators make of the translated clause body
 	cuts := 0
 	if clause != nil {
@@ -348,6 +356,7 @@ func runC17Expand(payload string) string {
 	} else {
 		res = append(res, "items -")
 	}
+	res = append(res, phr)
 	nt := 0
 	pl := " " + payload + " "
 	if isRule == 1 && (strings.Contains(pl, " A! ") || strings.Contains(pl, " C1:\\+ ") || strings.Contains(pl, " C2:-> ") || strings.HasPrefix(payload, "C2:--> C2:%2c ")) {
